@@ -135,7 +135,7 @@ CLAIMED = {
         'constants, values and every index, each accessor computes exactly the position at which the builder '
         '(girnode.c, hand model with its ALIGN_VALUE translated) placed that member (C09_object_sections, '
         'C09_interface_sections, C09_struct_enum_sections, C09_field_walk); for unions only when no field embeds a '
-        'callback (C09_union_sections; the accessor has no walk). the offset g_type_info_get_param_type computes (expression recognised in gitypeinfo.c on every run) is the position of ArrayTypeBlob.type and of ParamTypeBlob.type[n] in the layout regenerated from gitypelib-internal.h, for every n (C09_param_type_offset); through the blob the compiler writes (Model/C06K.blob_carray) and the two dimension accessors recognised in gitypeinfo.c, the API reports the length index the GIR gives and the fixed size the GIR gives except for an array that also has a length - never anything else (C09_array_dimensions, with the 16-bit wrap of the dimension spelled out, and C09_array_dimensions_exact below 65536: the exact extent of known findings C09-K1 and C09-K2; before fix b101e79 the length index came back as the fixed size: C09_array_dimensions_refuted_before_fix). Tie: generated namespaces over all container kinds are '
+        'callback (C09_union_sections; the accessor has no walk). the offset g_type_info_get_param_type computes (expression recognised in gitypeinfo.c on every run) is the position of ArrayTypeBlob.type and of ParamTypeBlob.type[n] in the layout regenerated from gitypelib-internal.h, for every n (C09_param_type_offset); every accessor of a type tells a type blob from a basic type stored in place by one test (recognised in all ten places of gitypeinfo.c and gibaseinfo.c, fail-closed): with the flag positions of the regenerated layout every offset below 2^24 is recognised as an offset, so in a typelib smaller than 16 MiB no type blob is ever taken for a basic type, and 2^24 is the first offset that would be (C09_complex_types_recognised, C09_inline_misread_at_16MiB); through the blob the compiler writes (Model/C06K.blob_carray) and the two dimension accessors recognised in gitypeinfo.c, the API reports the length index the GIR gives and the fixed size the GIR gives except for an array that also has a length - never anything else (C09_array_dimensions, with the 16-bit wrap of the dimension spelled out, and C09_array_dimensions_exact below 65536: the exact extent of known findings C09-K1 and C09-K2; before fix b101e79 the length index came back as the fixed size: C09_array_dimensions_refuted_before_fix). Tie: generated namespaces over all container kinds are '
         'compiled by the real compiler, walked through the whole public API by a C driver (every count, i-th accessor, '
         'flag, type, attribute by iteration and by name) and compared line by line with the description derived from the '
         'GIR; g-ir-generate output is parsed and compared with the same API (names, order of parameters, flags). '
